@@ -402,12 +402,28 @@ def schedule_scenarios():
             return calls()
         return a, b, [calls, lambda: (ev.recompile(old), calls())[1]]
 
+    def two_accepted_then_revisit():
+        # two ACCEPTED recompiles of different texts overlap; afterwards each text is submitted again (sequentially) and must be what runs
+        from pyab_experiment.experiment_evaluator import ExperimentEvaluator
+        ev = ExperimentEvaluator(old)
+        calls = lambda: [common.outcome_of(lambda u=u: ev(u=u, x=0)) for u in units]
+
+        def rec(t):
+            try:
+                ev.recompile(t)
+                return "ok"
+            except Exception as ex:  # noqa
+                return common.classify_exc(ex)
+        visit = lambda t: (lambda: (rec(t), calls()))
+        return (lambda: rec(new)), (lambda: rec(third)), [visit(third), visit(new), visit(old), visit(third), visit(old), visit(new)]
+
     def two_evaluators_same_names():
         # two different experiments with the same name and field names, built concurrently, then both asked
         return (lambda: build(new, (0, 1))), (lambda: build(third, (0, 1))), [lambda: build(old, (0, 1))]
 
     return [("two constructions", two_constructions), ("recompile vs calls", recompile_vs_calls), ("refused vs accepted recompile", refused_vs_accepted),
-            ("same text recompiled twice", same_text_twice), ("two evaluators, same experiment name", two_evaluators_same_names)]
+            ("same text recompiled twice", same_text_twice), ("two accepted recompiles, then each text again", two_accepted_then_revisit),
+            ("two evaluators, same experiment name", two_evaluators_same_names)]
 
 
 def run_schedules(ctx, budget):
